@@ -59,13 +59,13 @@ PROPS = {
         'assumptions': LIFE_ASSUME,
     },
     'C09': {
-        'tests': [life('TestC09', 800, 12000)],
-        'rule': "union generator: 1-5 processes, all conditions and policies, exit_on_* flags, start failures, bad working dirs, hold/ignore signal behaviours, disabled processes, API start/stop/restart/shutdown incl. unknown names; every status write is recorded by the state hook and every quiescent point is snapshotted; non-trivial = some process went through >= 3 status writes including Restarting/Terminating/Skipped/Error; distinct = distinct scenario JSON",
+        'tests': [life('TestC09', 800, 12000), tst('lifecycle', 'TestC09Scale', 30, 600)],
+        'rule': "union generator: 1-5 processes, all conditions and policies, exit_on_* flags, start failures, bad working dirs, hold/ignore signal behaviours, disabled processes, API start/stop/restart/shutdown incl. unknown names; every status write is recorded by the state hook and every quiescent point is snapshotted; a second generator (TestC09Scale) drives scale requests that rename, add and remove replicas, some of which have ended, and compares is_running/status of every listed replica with the live commands after each request; non-trivial = some process went through >= 3 status writes including Restarting/Terminating/Skipped/Error; distinct = distinct scenario JSON",
         'assumptions': LIFE_ASSUME,
     },
     'C12': {
-        'tests': [life('TestC12', 1500, 25000)],
-        'rule': "DAGs of 2-7 processes (45% density, process_started x3 / process_completed), ordered shutdown at a drawn position, dependents die only when the tape releases them (hold) in a drawn order; non-trivial = a process alive at the shutdown had >= 2 dependents alive; distinct = distinct scenario JSON",
+        'tests': [life('TestC12', 600, 10000)],
+        'rule': "DAGs of 2-7 processes (45% density, process_started x3 / process_completed), ordered shutdown at a drawn position, 15% / 6% of the processes carry a shutdown.command / a one-second shutdown.timeout_seconds, dependents die only when the tape releases them (hold) in a drawn order; non-trivial = a process alive at the shutdown had >= 2 dependents alive; distinct = distinct scenario JSON",
         'floors': {'fan-in>=2': 0.1},
         'assumptions': LIFE_ASSUME,
     },
